@@ -7,16 +7,57 @@ from bcverif.props.c06 import cds_blocks, mk_tx
 from bcverif.runner import pmap, setup_repo_import
 
 
+def _same_but_own_guid(da, db):
+    """dictionary forms equal once the aggregate's own identifier is left out"""
+    own = ("gene_guid", "feature_collection_guid", "variant_collection_guid")
+    return {k: v for k, v in da.items() if k not in own} == {k: v for k, v in db.items() if k not in own}
+
+
 def _events(args):
     items, G, seed = args
     setup_repo_import()
-    from inscripta.biocantor.gene.feature import FeatureInterval
+    from inscripta.biocantor.gene.collections import AnnotationCollection
+    from inscripta.biocantor.gene.feature import FeatureInterval, FeatureIntervalCollection
+    from inscripta.biocantor.gene.gene import GeneInterval
     from inscripta.biocantor.io.parser import seq_chunk_to_parent
     from inscripta.biocantor.location.strand import Strand
-    from inscripta.biocantor.parent import SequenceType
+    from inscripta.biocantor.parent import Parent, SequenceType
+    from inscripta.biocantor.sequence import Sequence
+    from inscripta.biocantor.sequence.alphabet import Alphabet
 
     rnd = random.Random(seed)
     ev = []
+
+    def back(l):
+        if l.is_empty:
+            return l
+        return l.lift_over_to_first_ancestor_of_type(SequenceType.CHROMOSOME)
+
+    def twin_row(A, B, blocks, st, cds, frames, R, ws, we, route, ctor, mk_fresh=None):
+        """the observations of one interval B built on the chunk against its whole-chromosome twin A"""
+        row = ["twin", [blocks, st], [cds, st] if cds else [[], "e"], frames, list(R), ws, we, route, ctor]
+        if B is None:
+            return row + [False] * 11
+        has_cds = bool(cds)
+        row += [B.to_dict() == A.to_dict(),
+                B.guid == A.guid and (not has_cds or (B.cds is not None and B.cds.guid == A.cds.guid)),
+                E.outcome(lambda: E.loc(B.chromosome_location)),
+                E.outcome(lambda: E.loc(back(B.chunk_relative_location))),
+                E.outcome(lambda: list(str(B.get_spliced_sequence())))]
+        if has_cds and B.cds is not None:
+            c = B.cds
+            row += [E.outcome(lambda: c.num_codons),
+                    E.outcome(lambda: [E.loc(x) for x in c.chromosome_codon_locations]),
+                    E.outcome(lambda: [E.loc(back(x)) for x in c.chunk_relative_codon_locations]),
+                    E.outcome(lambda: c.num_chunk_relative_codons)]
+            c2 = mk_fresh().cds if mk_fresh else None  # fresh object: sequence before any codon listing
+            row += [E.outcome(lambda: list(str((c2 if c2 is not None else c).extract_sequence()))), ["v", 0]]
+        elif has_cds:
+            row += [["x", "CdsMissingOnChunk"]] * 5 + [["v", 0]]  # the chunk-built twin lost its CDS: judged, not hidden
+        else:
+            row += [["v", 0]] * 6
+        return row
+
     for (blocks, st, cacb, f0, win) in items:
         R = "".join(rnd.choice("ACGT") for _ in range(G))
         cds = cds_blocks(blocks, st, *cacb) if cacb else None
@@ -27,48 +68,124 @@ def _events(args):
             A = mk_tx(blocks, st, cds, R, frames=frames, transcript_id="tx", sequence_name="chr")
         except Exception:
             continue
-        route = rnd.choice(["ctor", "liftover", "ctor"])
+
+        def on_chunk(par=chunk):
+            return mk_tx(blocks, st, cds, None, frames=frames, parent=par, transcript_id="tx", sequence_name="chr")
+
+        def other_chunk():
+            a = rnd.randrange(0, G)
+            b = rnd.randrange(a + 1, G + 1)
+            return seq_chunk_to_parent(R[a:b], "chr", a, b)
+
+        route = rnd.choice(["ctor", "liftover", "ctor", "chunk2chunk"])
         holder = []
         if route == "ctor":
-            ctor = E.outcome(lambda: holder.append(mk_tx(blocks, st, cds, None, frames=frames, parent=chunk,
-                                                         transcript_id="tx", sequence_name="chr")) or 1)
-        else:
+            ctor = E.outcome(lambda: holder.append(on_chunk()) or 1)
+        elif route == "liftover":
             ctor = E.outcome(lambda: holder.append(A.liftover_to_parent_or_seq_chunk_parent(chunk)) or 1)
-        row = ["twin", [blocks, st], [cds, st] if cds else [[], "e"], frames, list(R), ws, we, route, ctor]
-        if not holder:
-            ev.append(row + [False] * 11)
-            continue
-        B = holder[0]
+        else:  # first built on some other chunk (which may cut or miss it), then lifted to the target chunk
+            ctor = E.outcome(lambda: holder.append(
+                on_chunk(other_chunk()).liftover_to_parent_or_seq_chunk_parent(chunk)) or 1)
+        ev.append(twin_row(A, holder[0] if holder else None, blocks, st, cds, frames, R, ws, we, route, ctor, on_chunk))
 
-        def back(l):
-            if l.is_empty:
-                return l
-            return l.lift_over_to_first_ancestor_of_type(SequenceType.CHROMOSOME)
+        kind = rnd.choice(["none", "feature", "gene", "collection", "fcollection"])
+        strand = Strand.from_symbol(st)
+        chrom = Parent(id="chr", sequence=Sequence(R, Alphabet.NT_EXTENDED, id="chr", type=SequenceType.CHROMOSOME))
+        if kind == "feature":
+            def mk_f(par):
+                return FeatureInterval([b[0] for b in blocks], [b[1] for b in blocks], strand, feature_name="f",
+                                       sequence_name="chr", parent_or_seq_chunk_parent=par)
+            FA = mk_f(chrom)
+            h2 = []
+            r2 = rnd.choice(["feature-ctor", "feature-liftover", "feature-chunk2chunk"])
+            if r2 == "feature-ctor":
+                c2 = E.outcome(lambda: h2.append(mk_f(chunk)) or 1)
+            elif r2 == "feature-liftover":
+                c2 = E.outcome(lambda: h2.append(FA.liftover_to_parent_or_seq_chunk_parent(chunk)) or 1)
+            else:
+                c2 = E.outcome(lambda: h2.append(mk_f(other_chunk()).liftover_to_parent_or_seq_chunk_parent(chunk)) or 1)
+            ev.append(twin_row(FA, h2[0] if h2 else None, blocks, st, None, [], R, ws, we, r2, c2))
+        elif kind in ("gene", "collection"):
+            b2 = blocks[:1]
 
-        row += [B.to_dict() == A.to_dict(), B.guid == A.guid and (not cds or (B.cds is not None and B.cds.guid == A.cds.guid)),
-                E.outcome(lambda: E.loc(B.chromosome_location)),
-                E.outcome(lambda: E.loc(back(B.chunk_relative_location))),
-                E.outcome(lambda: list(str(B.get_spliced_sequence())))]
-        if cds and B.cds is not None:
-            c = B.cds
-            row += [E.outcome(lambda: c.num_codons),
-                    E.outcome(lambda: [E.loc(x) for x in c.chromosome_codon_locations]),
-                    E.outcome(lambda: [E.loc(back(x)) for x in c.chunk_relative_codon_locations]),
-                    E.outcome(lambda: c.num_chunk_relative_codons)]
-            c2 = (mk_tx(blocks, st, cds, None, frames=frames, parent=chunk, transcript_id="tx",
-                        sequence_name="chr")).cds  # fresh object: sequence before any codon listing
-            row += [E.outcome(lambda: list(str(c2.extract_sequence()))), ["v", 0]]
-        else:
-            row += [["v", 0]] * 6
-            if cds:
-                row[2] = [[], "e"] if B.cds is None else row[2]
-        ev.append(row)
+            def mk_gene(par, root):
+                t1 = mk_tx(blocks, st, cds, root, frames=frames, parent=par, transcript_id="tx", sequence_name="chr")
+                t2 = mk_tx(b2, st, None, root, parent=par, transcript_id="tx2", sequence_name="chr")
+                return GeneInterval([t1, t2], gene_id="g", locus_tag="lt", sequence_name="chr",
+                                    parent_or_seq_chunk_parent=par if par is not None else t1._parent_or_seq_chunk_parent)
+
+            try:
+                GA = mk_gene(None, R)
+            except Exception:
+                continue
+            h3 = []
+            if kind == "gene":
+                r3 = rnd.choice(["gene-ctor", "gene-liftover"])
+                if r3 == "gene-ctor":
+                    c3 = E.outcome(lambda: h3.append(mk_gene(chunk, None)) or 1)
+                else:
+                    c3 = E.outcome(lambda: h3.append(GA.liftover_to_parent_or_seq_chunk_parent(chunk)) or 1)
+                GB = h3[0] if h3 else None
+                CA, CB = GA, GB
+            else:
+                r3 = "collection-ctor"
+                CA = AnnotationCollection(genes=[GA], sequence_name="chr", parent_or_seq_chunk_parent=chrom)
+                c3 = E.outcome(lambda: h3.append(AnnotationCollection(
+                    genes=[mk_gene(chunk, None)], sequence_name="chr", start=ws, end=we,
+                    parent_or_seq_chunk_parent=chunk)) or 1)
+                CB = h3[0] if h3 else None
+                GB = CB.genes[0] if CB is not None else None
+            hull_lo, hull_hi = max(ws, blocks[0][0]), min(we, blocks[-1][1])
+            agg = ["agg", kind, r3, c3, ws, we, [blocks, st], list(R)]
+            if GB is None:
+                ev.append(agg + [False, False, ["x", "none"], ["x", "none"], ["x", "none"], False])
+                continue
+            agg += [GB.to_dict() == GA.to_dict(), GB.guid == GA.guid,
+                    E.outcome(lambda: [GB.start, GB.end]),
+                    E.outcome(lambda: E.loc(back(GB.chunk_relative_location))),
+                    E.outcome(lambda: list(str(GB.get_reference_sequence()))),
+                    _same_but_own_guid(GA.to_dict(), GB.to_dict())]
+            ev.append(agg)
+            # every child transcript of the chunk-built gene is itself a twin of the chromosome-built child
+            for i, (tA, tB) in enumerate(zip(GA.transcripts, GB.transcripts)):
+                ev.append(twin_row(tA, tB, blocks if i == 0 else b2, st, cds if i == 0 else None,
+                                   frames if i == 0 else [], R, ws, we, r3 + "/child", ["v", 1]))
+        elif kind == "fcollection":
+            def mk_fc(par):
+                fs = [FeatureInterval([b[0] for b in blocks], [b[1] for b in blocks], strand, feature_name="f",
+                                      sequence_name="chr", parent_or_seq_chunk_parent=par),
+                      FeatureInterval([blocks[-1][0]], [blocks[-1][1]], strand, feature_name="f2",
+                                      sequence_name="chr", parent_or_seq_chunk_parent=par)]
+                return FeatureIntervalCollection(fs, feature_collection_name="fc", sequence_name="chr",
+                                                 parent_or_seq_chunk_parent=par)
+            FA = mk_fc(chrom)
+            h4 = []
+            r4 = rnd.choice(["fcollection-ctor", "fcollection-liftover"])
+            if r4 == "fcollection-ctor":
+                c4 = E.outcome(lambda: h4.append(mk_fc(chunk)) or 1)
+            else:
+                c4 = E.outcome(lambda: h4.append(FA.liftover_to_parent_or_seq_chunk_parent(chunk)) or 1)
+            FB = h4[0] if h4 else None
+            agg = ["agg", kind, r4, c4, ws, we, [blocks, st], list(R)]
+            if FB is None:
+                ev.append(agg + [False, False, ["x", "none"], ["x", "none"], ["x", "none"], False])
+                continue
+            agg += [FB.to_dict() == FA.to_dict(), FB.guid == FA.guid, E.outcome(lambda: [FB.start, FB.end]),
+                    E.outcome(lambda: E.loc(back(FB.chunk_relative_location))),
+                    E.outcome(lambda: list(str(FB.get_reference_sequence()))),
+                    _same_but_own_guid(FA.to_dict(), FB.to_dict())]
+            ev.append(agg)
+            for i, (fA, fB) in enumerate(zip(FA.feature_intervals, FB.feature_intervals)):
+                ev.append(twin_row(fA, fB, blocks if i == 0 else blocks[-1:], st, None, [], R, ws, we,
+                                   r4 + "/child", ["v", 1]))
     return ev
 
 
 def _key(ev, clause):
     if clause == "chunk-codons:single-exon-offset":
         return "cds:single-exon-chunk-offset"
+    if clause == "aggregate-identifier:from-chunk-location":
+        return "agg:guid-from-chunk-location"
     return None
 
 
@@ -101,6 +218,8 @@ def run(chk):
     evs = [e for p in parts for e in p]
     chk.validate("C07Trace", evs, shard=1500, label="chunk", keyfn=_key)
     chk.nontrivial = len({str(e[1:8]) for e in evs})
+    chk.extra["routes"] = {r: sum(1 for e in evs if e[0] == "twin" and e[7] == r) for r in sorted({e[7] for e in evs if e[0] == "twin"})}
+    chk.extra["aggregate_twins"] = sum(1 for e in evs if e[0] == "agg")
     chk.extra["constants"] = {"G": G, "K": 3, "space": total, "twins_driven": len(evs)}
     chk.trusted += ["TLC", "CDS.tla / Lift.tla", "encode.py", "io.parser.seq_chunk_to_parent"]
     return chk.finish("transcripts (1..3 exons over 0..G, both strands; non-coding or CDS at 4 placements x start frames "
